@@ -50,7 +50,7 @@ def budget(tier):
 
 
 def gen_case(rng, tier):
-    case = c03.gen_case(rng, tier)
+    case = c03.gen_case(rng, tier, custom_final=False)
     case["trip"] = [rng.choice(c03.ENG), rng.choice(c03.ENG)]
     return case
 
